@@ -14,7 +14,8 @@
   PhcErrorBoundRetrievalFailed ↦ `.missing false`; other messages are ignored), then the `recv` of
   `ThreadAbort`, which ends the loop; it returns `()`.  Where `Updater.step` says panic (`none`) the thread
   panics.  `records_eq`: the records among the log entries are `Updater.run` over the mapped messages.
-  `iteration_eq`: the same for ONE iteration of the loop body from any loop state (what the loop proof uses).
+  `iteration_eq`: the same for ONE TURN of the loop (`Rs.findLoop`, `Rs.turnIs`: however the loop is written) from any
+  loop-top state (what the loop proof uses).
 
   All messages of a run are handled at the same CLOCK_REALTIME reading `nowNs` (`ref_time.elapsed()` is the
   core's `Ctx.nowNs`, a constant of the run): `Updater.run` over messages with different `nowNs` is covered
@@ -58,30 +59,46 @@ theorem records_eq (nowNs : Int) (ms : List WMsg) (u u' : Updater) (l : List Val
   rw [List.filter_append, DispatchProof.writerRun_records nowNs ms u u' l h]
   simp [isRecordValue, evRecv]
 
-/-- one iteration of the loop body on the message `m`, from any loop state, for every fuel `N ≥ 100` -/
-theorem iteration_eq (nowNs : Int) (u : Updater) (m : WMsg) (hwf : m.wf = true) (inp : Nat → Value)
-    (log : List Value) (pos : Nat) (c : Expr) (body : List Stmt)
-    (hfw : findWhile Code.fn_shm_writer__process_messages.body = some (c, body))
-    (hin : inp pos = m.recvd) (N : Nat) (hN : 100 ≤ N) (next : St → Res) :
-    ((evalBlock N (ctxP nowNs inp) frW body (writerLoopSt true u log pos)).popTo 3).loopNext next
-    = match m.toMsg nowNs with
-      | none => next (writerLoopSt true u (log ++ [evRecv m.recvd]) (pos + 1))
-      | some msg =>
-        match u.step msg with
-        | none => .panic
-        | some (u', r) => next (writerLoopSt true u' (log ++ [evRecv m.recvd, recordValue r]) (pos + 1)) := by
-  rw [DispatchProof.disp_iter nowNs u m hwf inp log pos c body hfw hin N hN next]
-  cases m.toMsg nowNs with
-  | none => rfl
-  | some msg => cases u.step msg <;> rfl
+/-- the state at the top of the loop of `process_messages` (however the loop is written) with updater state `u`:
+    computed by the interpreter from the arguments and the statements `pre` before the loop (`Rs.topSt`) -/
+abbrev topW (nowNs : Int) (inp : Nat → Value) (pre : List Stmt) (u : Updater) (log : List Value) (pos : Nat) : St :=
+  topSt (ctxP nowNs inp) Code.fn_shm_writer__process_messages (writerArgs u) pre log pos
 
-/-- `Ok(Message::ThreadAbort)` clears `keep_running` and writes nothing -/
-theorem iteration_abort (nowNs : Int) (u : Updater) (inp : Nat → Value) (log : List Value) (pos : Nat) (c : Expr)
-    (body : List Stmt) (hfw : findWhile Code.fn_shm_writer__process_messages.body = some (c, body))
-    (hin : inp pos = recvAbort) (N : Nat) (hN : 100 ≤ N) (next : St → Res) :
-    ((evalBlock N (ctxP nowNs inp) frW body (writerLoopSt true u log pos)).popTo 3).loopNext next
-    = next (writerLoopSt false u (log ++ [evRecv recvAbort]) (pos + 1)) :=
-  DispatchProof.disp_abort nowNs u inp log pos c body hfw hin N hN next
+/-- ONE TURN of the loop (`Rs.findLoop`: a `while` or a `loop`) on the message `m`, from any top state, for every fuel
+    `K ≥ 100`: a message without handler is only received; a message the updater acts on publishes the record of
+    `Updater.step` (or panics where the model says so); in all these cases the loop goes on from the top state with
+    the new updater state -/
+theorem iteration_eq (nowNs : Int) (u : Updater) (m : WMsg) (hwf : m.wf = true) (inp : Nat → Value)
+    (log : List Value) (pos : Nat) (pre : List Stmt) (c : Expr) (body : List Stmt)
+    (hfl : findLoop Code.fn_shm_writer__process_messages.body = some (pre, c, body))
+    (hin : inp pos = m.recvd) (K : Nat) (hK : 100 ≤ K) :
+    turnIs (ctxP nowNs inp) frW c body K
+      (evalWhile (K + 2) (ctxP nowNs inp) frW c body (topW nowNs inp pre u log pos))
+      (match m.toMsg nowNs with
+       | none => .next (topW nowNs inp pre u (log ++ [evRecv m.recvd]) (pos + 1))
+       | some msg =>
+         match u.step msg with
+         | none => .panic
+         | some (u', r) => .next (topW nowNs inp pre u' (log ++ [evRecv m.recvd, recordValue r]) (pos + 1))) := by
+  have := DispatchProof.disp_iter nowNs u m hwf inp log pos pre c body hfl hin K hK
+  cases hm : m.toMsg nowNs with
+  | none => rw [hm] at this; exact this
+  | some msg =>
+    rw [hm] at this
+    simp only [] at this
+    cases hs : u.step msg with
+    | none => rw [hs] at this; simpa [hs, DispatchProof.stepSpec] using this
+    | some q => obtain ⟨u', r⟩ := q; rw [hs] at this; simpa [hs, DispatchProof.stepSpec] using this
+
+/-- `Ok(Message::ThreadAbort)` ends the loop and writes nothing -/
+theorem iteration_abort (nowNs : Int) (u : Updater) (inp : Nat → Value) (log : List Value) (pos : Nat)
+    (pre : List Stmt) (c : Expr) (body : List Stmt)
+    (hfl : findLoop Code.fn_shm_writer__process_messages.body = some (pre, c, body))
+    (hin : inp pos = recvAbort) (K : Nat) (hK : 100 ≤ K) :
+    turnIs (ctxP nowNs inp) frW c body K
+      (evalWhile (K + 2) (ctxP nowNs inp) frW c body (topW nowNs inp pre u log pos))
+      (.done (log ++ [evRecv recvAbort]) (pos + 1)) :=
+  DispatchProof.disp_abort nowNs u inp log pos pre c body hfl hin K hK
 
 /-- non-vacuity: three messages (a missing one, one without handler, a missing one) on a fresh updater: two
     records, the first FreeRunning-class input on an updater without measurement publishes Unknown -/
